@@ -34,6 +34,10 @@ pub struct Case {
     pub own: Own,
     /// non-empty, sentinel-free, over `alphabet`
     pub patterns: Vec<B>,
+    /// the sampled suffix array is sampled again (SuffixArray::sample on the sampled array) at each of these
+    /// rates in turn; positions are resolved through the last one
+    #[serde(default)]
+    pub resample: Vec<usize>,
 }
 
 #[derive(Default)]
@@ -87,7 +91,7 @@ fn run<F: FMIndexable, S: SuffixArray>(fm: &F, sa: &RawSuffixArray, ssa: &S, c: 
             // resolving one row through the sampled array costs up to sa_rate LF steps of up to k byte
             // counts each: for big intervals with sparse sampling only a spread of rows is resolved
             let rows = iv.upper - iv.lower;
-            let per_row = (c.sa_rate.min(n) as u64) * ((c.k as usize).min(n) as u64);
+            let per_row = (c.resample.last().copied().unwrap_or(c.sa_rate).min(n) as u64) * ((c.k as usize).min(n) as u64);
             if rows as u64 * per_row <= 40_000_000 {
                 let smp = sorted(iv.occ(ssa));
                 ensure!(smp == best_occ, "{}: {} interval {:?} maps through the SAMPLED suffix array (rate {}) to {:?}; expected {}", ctx(), what, iv, c.sa_rate, smp, expect_desc);
@@ -137,7 +141,7 @@ pub fn check(c: &Case) -> R {
     ensure!(!c.alphabet.is_empty() && c.alphabet.iter().all(|&a| a >= sentinel), "harness: alphabet {:?} has a symbol below the sentinel", c.alphabet);
     ensure!(text.iter().all(|&a| a == sentinel || c.alphabet.contains(&a)), "harness: alphabet {:?} does not cover text {:?}", c.alphabet, c.text);
     ensure!(sentinel == b'$' || c.alphabet.contains(&sentinel), "harness: non-$ sentinel missing from alphabet");
-    ensure!(c.k >= 1 && c.sa_rate >= 1 && !c.patterns.is_empty(), "harness: rates/patterns");
+    ensure!(c.k >= 1 && c.sa_rate >= 1 && !c.patterns.is_empty() && c.resample.iter().all(|&r| r >= 1), "harness: rates/patterns");
     for p in &c.patterns {
         ensure!(!p.is_empty() && p.iter().all(|&a| a != sentinel && c.alphabet.contains(&a)), "harness: pattern {:?} outside the domain", p);
     }
@@ -151,18 +155,27 @@ pub fn check(c: &Case) -> R {
     match c.own {
         Own::Borrowed => {
             let fm = FMIndex::new(&bw, &le, &oc);
-            let ssa = sa.sample(text, &bw, &le, &oc, c.sa_rate);
+            let mut ssa = sa.sample(text, &bw, &le, &oc, c.sa_rate);
+            for &r in &c.resample {
+                ssa = ssa.sample(text, &bw, &le, &oc, r);
+            }
             run(&fm, &sa, &ssa, c, &mut seen)?;
         }
         Own::Owned => {
             let fm = FMIndex::new(bw.clone(), le.clone(), oc.clone());
-            let ssa = sa.sample(text, bw.clone(), le.clone(), oc.clone(), c.sa_rate);
+            let mut ssa = sa.sample(text, bw.clone(), le.clone(), oc.clone(), c.sa_rate);
+            for &r in &c.resample {
+                ssa = ssa.sample(text, bw.clone(), le.clone(), oc.clone(), r);
+            }
             run(&fm, &sa, &ssa, c, &mut seen)?;
         }
         Own::Arc => {
             let (b, l, o) = (Arc::new(bw), Arc::new(le), Arc::new(oc));
             let fm = FMIndex::new(b.clone(), l.clone(), o.clone());
-            let ssa = sa.sample(text, b.clone(), l.clone(), o.clone(), c.sa_rate);
+            let mut ssa = sa.sample(text, b.clone(), l.clone(), o.clone(), c.sa_rate);
+            for &r in &c.resample {
+                ssa = ssa.sample(text, b.clone(), l.clone(), o.clone(), r);
+            }
             run(&fm, &sa, &ssa, c, &mut seen)?;
         }
     }
@@ -186,6 +199,8 @@ pub fn check(c: &Case) -> R {
     pass.add_if(c.own == Own::Owned, "owned");
     pass.add_if(c.own == Own::Arc, "Arc");
     pass.add_if(c.sa_rate > 1, "sampled SA rate>1");
+    pass.add_if(!c.resample.is_empty(), "sampled SA sampled again");
+    pass.add_if(c.resample.first().map_or(false, |&r| r > c.sa_rate && r % c.sa_rate == 0), "re-sampled at a multiple of the first rate");
     pass.add_if(c.sa_rate > n, "sampled SA rate>n");
     pass.add_if(c.k == 1, "k=1");
     pass.add_if(c.k > 64 && (c.k as usize) < n, "64<k<n");
@@ -385,8 +400,9 @@ pub fn strat(t: Tier) -> BoxedStrategy<Case> {
         saspec,
         own(),
         proptest::collection::vec(pspec(), 1..=6),
+        prop_oneof![3 => Just(Vec::new()), 1 => proptest::collection::vec((any::<bool>(), 0u8..=7), 1..=2)],
     )
-        .prop_map(|(ts, extras, with_dollar, ks, ss, own, pss)| {
+        .prop_map(|(ts, extras, with_dollar, ks, ss, own, pss, rs)| {
             let text = build_text(&ts);
             let n = text.len();
             let sentinel = ts.sentinel;
@@ -419,7 +435,16 @@ pub fn strat(t: Tier) -> BoxedStrategy<Case> {
                 SaSpec::Frac(f) => 1 + idx(f, n + 1),
             };
             let patterns = pss.iter().map(|ps| B(build_pattern(ps, &text, &syms))).collect();
-            Case { text: B(text), alphabet: B(alphabet), k, sa_rate, own, patterns }
+            // further rates: a small multiple of the rate before, or any small rate
+            let mut prev = sa_rate;
+            let resample: Vec<usize> = rs
+                .iter()
+                .map(|&(multiple, v)| {
+                    prev = if multiple { prev.saturating_mul(2 + v as usize % 3).min(4 * n + 8) } else { 1 + v as usize };
+                    prev
+                })
+                .collect();
+            Case { text: B(text), alphabet: B(alphabet), k, sa_rate, own, patterns, resample }
         })
         .boxed()
 }
@@ -477,6 +502,8 @@ fn enumerate(t: Tier) -> Box<dyn Iterator<Item = Case>> {
                 sa_rate: [1usize, 2, 3][r],
                 own,
                 patterns: vec![pats[pi].clone()],
+                // every fourth case resolves positions through a re-sampled array (rate doubled, or back to 1)
+                resample: match (j + pi) % 8 { 3 => vec![2 * [1usize, 2, 3][r]], 7 => vec![1], _ => Vec::new() },
             }
         })
     }))
